@@ -17,9 +17,10 @@ RULE = (
     "optional strided<> or #tsl.tsl operand layouts; plus tiled=true|false. 'scheduled': elementwise / matmul+gemm / conv-like "
     "operations (multiples and non-multiples of the template bounds, transposed/broadcast operands, stride and dilation) go "
     "through the real dart-scheduler first. 'direct': schedules built by the generator itself (reduction/broadcast dims, compound "
-    "index expressions, reversed/offset/strided access, 0..3 tilings by any divisor, arbitrary dimension order). 'explicit': "
-    "some or all operands already carry a #tsl.tsl layout. 'sweep' (thorough): every 2-D shape up to 40x40 with the default "
-    "elementwise / matmul maps per accelerator and width. The real set-memory-layout pass is applied; for every snax.layout_cast "
+    "index expressions, reversed/offset/strided/constant-index access, operands larger than the iteration space, 0..3 tilings by "
+    "any divisor, arbitrary dimension order). 'explicit': some or all operands already carry a #tsl.tsl layout. 'sweep' "
+    "(thorough): every 2-D shape up to 40x40 with the default elementwise / matmul maps per accelerator and width, through the "
+    "real scheduler and as directly built tiled schedules. The real set-memory-layout pass is applied; for every snax.layout_cast "
     "feeding the schedule the result layout is checked with a reference address function written from the TSL docstrings: "
     "(i) per dimension the product of the tile bounds equals the operand size, (ii) all indices of the operand shape map to "
     "pairwise distinct element addresses (numpy unique; TSL steps are in elements, so distinct elements are distinct byte "
@@ -39,6 +40,8 @@ ASSUMPTIONS = [
     "only builds in-bounds accesses)",
     "snax_xdma is registered the way tools/config_parser.py does it; class labels for the padding regime are observed by wrapping "
     "ensure_access_granularity (the wrapper calls the original and only records arguments and result)",
+    "a pass that uses more than 3 s (set-memory-layout) / 10 s (dart-scheduler) of CPU time on one op is counted as a rejection; "
+    "after three such hangs in a worker process the remaining cases of that worker are rejected unasked (the floor then reports it)",
 ]
 
 MAX_ELEMS = 70000
@@ -65,7 +68,9 @@ class cpu_limit:
             raise _Hang()
 
         self._old = signal.signal(signal.SIGVTALRM, handler)
-        signal.setitimer(signal.ITIMER_VIRTUAL, self.seconds)
+        # periodic: if the exception is swallowed where the interpreter happens to be (a __del__, a weakref callback, an
+        # `except BaseException` in library code), the next tick raises it again
+        signal.setitimer(signal.ITIMER_VIRTUAL, self.seconds, 0.25)
         return self
 
     def __exit__(self, *exc):
@@ -186,7 +191,7 @@ def _coverage_signature(tiled, A, b, bounds, d, size, got):
     return GENERIC_COVERAGE
 
 
-def check(recipe, want_explicit=False):
+def check(recipe):
     _install_wrapper()
     r = recipe["op"]
     tiled = bool(recipe["tiled"])
@@ -411,19 +416,28 @@ def sweep(tier):
                 yield dict(op=D.default_matmul("qmac_add", a, 8, b), tiled=tiled)
                 for w_in, w_out in (("i16", "i32"), ("i32", "i64"), ("i64", "i8")):
                     yield dict(op=D.default_matmul("mac", a, 8, b, [w_in, w_in, w_out]), tiled=tiled)
+                # the real scheduler refuses most shapes (a dim larger than the template bound that is not a multiple of it);
+                # directly built schedules cover every shape: each dim split by its largest divisor <= the template bound
+                for w in D.WIDTHS:
+                    yield dict(op=D.tiled_schedule_of(D.default_elementwise("alu_add", [a, b], [w] * 3), (4, 4)), tiled=tiled)
+                yield dict(op=D.tiled_schedule_of(D.default_elementwise("xdma_add", [a, b]), (16, 16)), tiled=tiled)
+                yield dict(op=D.tiled_schedule_of(D.default_matmul("mac", a, 8, b), (8, 8, 8)), tiled=tiled)
+                yield dict(op=D.tiled_schedule_of(D.default_matmul("mac", a, 16, b, ["i16", "i16", "i64"]), (8, 8, 8)), tiled=tiled)
 
 
 SUBS = [
     Sub("scheduled", lambda tier: scheduled_case(tier), prop, budget=dict(quick=1200, thorough=24000),
-        floor=dict(quick=150, thorough=2500),
+        floor=dict(quick=150, thorough=2900),
         nontrivial_rule="the real dart-scheduler produced a schedule, set-memory-layout inserted casts and some chosen layout is "
                         "not plain row-major or granularity padding changed a stride"),
     Sub("direct", lambda tier: direct_case(tier), prop, budget=dict(quick=1800, thorough=40000),
-        floor=dict(quick=300, thorough=5000),
+        floor=dict(quick=230, thorough=5500),
         nontrivial_rule="set-memory-layout inserted casts and some chosen layout is not plain row-major or padding changed a stride"),
     Sub("explicit", lambda tier: explicit_case(tier), prop, budget=dict(quick=480, thorough=8000),
-        floor=dict(quick=100, thorough=1500),
+        floor=dict(quick=80, thorough=1400),
         nontrivial_rule="at least one operand carries a #tsl.tsl layout (one / some / all operands)"),
     Sub("sweep", None, prop, budget=dict(quick=0, thorough=0), exhaustive=sweep, exhaustive_only=True,
-        nontrivial_rule="as 'scheduled'; complete enumeration of 2-D shapes up to 40x40 with default maps (thorough tier only)"),
+        floor=dict(quick=0, thorough=8000),
+        nontrivial_rule="as 'scheduled'/'direct'; complete enumeration of 2-D shapes up to 40x40 with default maps, through the real "
+                        "scheduler and as directly built tiled schedules (thorough tier only)"),
 ]
